@@ -433,9 +433,15 @@ class Ref:
     def check_enter(self, R, enters, exits):
         if not enters:
             return False
+        claimed = []
         for F in enters:
             if not self.frame_check_enter(F, exits):
                 return False
+            for aux in F.auxes:          # one original auxiliary cannot be entered by two frames at once
+                if aux.original:
+                    if aux in claimed:
+                        return False
+                    claimed.append(aux)
         return True
 
     def activate(self, R, F):
